@@ -281,6 +281,8 @@ def execute(w, keep=False, timeout=30):
         before_dirs, before_files = snapshot(root)
         args = [C.TBH, "run", "--export", w.export_arg if w.export_arg is not None else os.path.join(root, *[c.decode("utf-8", "surrogateescape") for c in w.export])]
         scan_args = w.scan_args if w.scan_args is not None else [os.path.join(root, *[c.decode("utf-8", "surrogateescape") for c in s]) for s in w.scan]
+        scan_args = [os.path.join(root, a[len("\x00ABS/"):]) if a.startswith("\x00ABS/") else a for a in scan_args]
+        r_scan_abs = [a.startswith("/") for a in scan_args]
         for s in scan_args:
             args += ["--scan", s]
         for t in tpaths:
@@ -301,6 +303,7 @@ def execute(w, keep=False, timeout=30):
         after_dirs, after_files = snapshot(root)
         r = RunResult()
         r.world, r.root, r.rc, r.stdout, r.stderr = w, root, rc, out, err
+        r.scan_abs = r_scan_abs
         r.before_dirs, r.before_files, r.after_dirs, r.after_files = before_dirs, before_files, after_dirs, after_files
         parse_output(r)
         build_lines(r)
@@ -348,6 +351,8 @@ def parse_output(r):
                     r.solves.append((thread, h, segs, t[3]))
             elif t[0] == "crash":
                 r.crashed = (int(t[1]), int(t[2]))
+    for thread, (h, segs) in sorted(cur.items()):
+        r.solves.append((thread, h, segs, "inflight"))      # the run died while this piece was being evaluated
     if r.result is None:
         r.result = "timeout" if r.rc == "timeout" else ("crash" if r.crashed is not None else "abort")
 
@@ -375,8 +380,7 @@ def build_lines(r):
     req += ["E", "1" if exp_abs else "0", ptok(w.export)]
     req += ["S", str(len(w.scan))]
     for i, s in enumerate(w.scan):
-        a = w.scan_args is None or w.scan_args[i].startswith("/")
-        req += ["1" if a else "0", ptok(s)]
+        req += ["1" if r.scan_abs[i] else "0", ptok(s)]
     req += ["R", "1" if w.resize else "0", "T", str(w.threads)]
     req += ["F", str(len(r.before_dirs))] + [ptok(d) for d in sorted(r.before_dirs)]
     req += [str(len(r.before_files))] + files_tok + [str(len(inos))] + inode_tok
@@ -401,8 +405,11 @@ def build_lines(r):
         truth = []
     req += ["G", str(len(truth))] + [x for e, c in truth for x in (str(e), hx(c))]
     req += ["U", str(len(r.solves))] + [outcome for thread, h, segs, outcome in r.solves]
-    obs = ["RES", r.result, "OPS", str(len(r.ops))]
-    for op in r.ops:
+    if w.crash is not None:
+        req += ["K", str(w.crash[0]), str(w.crash[1])]
+    ops = [op for op in r.ops if op[4] != "cut"]
+    obs = ["RES", r.result, "OPS", str(len(ops))]
+    for op in ops:
         obs += op_tokens(op)
     obs += ["CNT", str(len(r.counters))] + [str(x) for c in r.counters for x in c]
     obs += ["TOTAL", str(r.progress_total if r.progress_total is not None else 0)]
@@ -413,3 +420,102 @@ def build_lines(r):
     r.request = " ".join(req)
     r.observation = " ".join(obs)
     r.line = r.request + " | " + r.observation
+
+# ---------------------------------------------------------------- special-purpose generators
+
+def gen_small_world(rng):
+    """one torrent, few files, few candidates: short operation logs (fault / crash enumeration)"""
+    w = gen_world(rng, ntorrents=1)
+    return w
+
+def gen_world_c14(rng):
+    """every non-padding file gets an explicit prior export state: absent / shorter / exact / longer"""
+    w = gen_world(rng, ntorrents=rng.choice([1, 1, 2]))
+    for g in w.gts:
+        for f in g.files:
+            if f.pad:
+                continue
+            tgt = tuple(g.target(w.export, f))
+            w.files.pop(tgt, None)
+            state = rng.below(8)
+            if state in (0, 1):
+                continue
+            if state in (2, 3, 4) and f.length > 0:
+                w.add_file(tgt, f.content[:rng.below(f.length)] if rng.chance(1, 2) else corrupt(rng, f.content)[:rng.below(f.length)])
+            elif state in (5, 6):
+                w.add_file(tgt, f.content if rng.chance(1, 2) else corrupt(rng, f.content))
+            elif state == 7:
+                w.add_file(tgt, f.content + rng.bytes(rng.range(1, 4)))
+    w.resize = rng.chance(3, 4)
+    return w
+
+def gen_world_c16(rng, i):
+    """argument validation and degenerate-but-loadable torrents"""
+    w = gen_world(rng, ntorrents=rng.choice([1, 2]))
+    k = i % 10
+    root_rel = lambda comps: "/".join(c.decode() for c in comps)
+    if k == 0:
+        w.scan_args = None; w.export_arg = root_rel(w.export); w.tag = "export relative"
+    elif k == 1:
+        j = rng.below(len(w.scan))
+        w.scan_args = ["\x00ABS" + "/" + root_rel(s) for s in w.scan]
+        w.scan_args[j] = root_rel(w.scan[j]); w.tag = "scan %d relative" % j
+    elif k == 2:
+        w.scan.insert(rng.below(len(w.scan) + 1), (b"missing-dir",)); w.tag = "scan missing"
+    elif k == 3:
+        w.scan.insert(rng.below(len(w.scan) + 1), (b"bystander", b"note.txt")); w.tag = "scan is a file"
+    elif k == 4:
+        w.export = (b"no-such-export",); w.dirs.discard((b"export",)); w.tag = "export missing"
+        w.files = {p: v for p, v in w.files.items() if p[0] != b"export"}
+        w.dirs = {d for d in w.dirs if d[0] != b"export"}
+    elif k == 5:
+        w.export = (b"bystander", b"note.txt"); w.tag = "export is a file"
+        w.files = {p: v for p, v in w.files.items() if p[0] != b"export"}
+    elif k == 6:
+        w.docs = []; w.tag = "no torrents"
+    elif k == 7:
+        w.docs = [b"not bencode", b"d4:infod4:name1:aee"]; w.has_truth = False; w.tag = "no loadable torrent"
+    elif k == 8:
+        w.docs = w.docs + [b"i1e"]; w.tag = "one unloadable torrent among good ones"
+    else:
+        w.tag = "plain"
+    return w
+
+def transform_presentation(rng, w, k):
+    """C17: another presentation of the same world"""
+    import copy
+    v = copy.copy(w)
+    v.docs = list(w.docs); v.scan = list(w.scan); v.files = dict(w.files); v.dirs = set(w.dirs)
+    if k == 0:
+        v.docs = rng.shuffle(v.docs); v.tag = "torrents permuted"
+    elif k == 1:
+        v.docs = v.docs + [rng.choice(v.docs)]; v.docs = rng.shuffle(v.docs); v.tag = "torrent listed twice"
+    elif k == 2:
+        v.scan = rng.shuffle(v.scan); v.tag = "scan directories permuted"
+    elif k == 3:
+        v.scan = v.scan + [rng.choice(v.scan)]; v.tag = "scan directory repeated"
+    elif k == 4:
+        nested = [s[:-1] for s in v.scan if len(s) > 1]
+        v.scan = v.scan + (nested[:1] if nested else [v.scan[0]]); v.tag = "enclosing directory also scanned"
+    elif k == 5:
+        if w.export not in v.scan:
+            v.scan = v.scan + [w.export]
+        v.tag = "export directory among the scan directories"
+    else:
+        v.threads = rng.choice([0, 2, 3, 5]); v.tag = "threads=%d" % v.threads
+    return v
+
+
+def world_from_snapshot(w, dirs, files):
+    """the same arguments on the tree a previous run left behind (hard-link groups kept by inode)"""
+    import copy
+    v = copy.copy(w)
+    v.crash = None; v.faults = []
+    v.dirs = set(tuple(d) for d in dirs)
+    v.files = {}
+    groups = {}
+    for p, (content, ino) in files.items():
+        groups.setdefault(ino, []).append(p)
+    for p, (content, ino) in files.items():
+        v.files[tuple(p)] = (content, ino if len(groups[ino]) > 1 else None)
+    return v
